@@ -149,6 +149,9 @@ def o_process_start(I, fn, n, args, st):
     """outcome classes of process_start (verified by verify_start_summary):
     <0 with *process untouched and no child left; 0 in the forked child; 1 with *process = pid of a running child"""
     ev(I, "process_start", fn, n, args, st)
+    if "validated" in st.mon:
+        st = st.copy()
+        del st.mon["validated"]        # only of interest up to this call (C10.W4t); dropping it lets equal futures merge again
     fail = (failed(st, fn, n), I.neg())
     child = st.copy()
     ends = set()
